@@ -25,6 +25,8 @@ from vlib.val import line, Word
 from vlib.compare import diff, Err, exc_kind, is_err
 
 ID = 'C05'
+# theorems of this property stated for the object evaluator `Obj.evaluate` (bridge through C02)
+EXTRA_THEOREMS = [('Splipy.Properties.Bridge', 'Splipy/Properties/Bridge.lean', 'Bridge_C05_')]
 RTOL = 1e-7      # multiplied by the measured condition number for control points
 ATOL = 1e-11
 RULE = ('continuous objects: pardim 1-3, rational or not, bases open (clamped) or periodic (every continuity k) with interior '
